@@ -12,6 +12,8 @@ The exact-partition arithmetic is not decidable by this technique. Decided:
                    claim, also a failing one; it cannot wrap only if it is strictly wider than the
                    index type (compile-time witness for all 8 index types) or the advance is guarded
                    by the bound.
+  C12.serial-range when parallel_for runs the loop on the caller alone, the body gets the caller's
+                   whole range (range.start, range.end), not the granularity-trimmed copy.
 """
 import re
 from lib.facts import Pos, const_val, expr_str, is_call, strip_casts, subexprs
@@ -112,3 +114,55 @@ def run(R):
         R.ob("C12.cursor-width", None, w["loc"], ok, "StripeCursor<%s>: cursor %d bytes, index %d bytes%s" % (t, w["value"], s["value"], "; advance guarded by the bound" if guarded else "; advance is an unconditional fetch_add"),
              sitekey="cursor:" + t, why="a cursor of the index type's own width wraps when failing claims keep adding chunkSize near the type's maximum: chunks are claimed again / the loop never terminates")
     R.need("C12.cursor-width", k, 8, "StripeCursor width witnesses")
+    serial_range(R)
+
+
+def serial_range(R):
+    """C12.serial-range: when parallel_for decides to run the whole loop on the caller (empty parallel
+    part, zero-thread pool, nested call, fewer than two usable threads) the body is invoked over the
+    caller's *whole* range [range.start, range.end) -- not over the granularity-trimmed copy used
+    for the parallel part, which would silently drop the tail."""
+    F = R.F
+    n = 0
+    for fn in F.functions(qname="dispenso::parallel_for"):
+        rp = [prm for prm in fn.params if prm.get("name") == "range" and "ChunkedRange" in (prm.get("ctype") or prm.get("type") or "")]
+        fp = [prm for prm in fn.params if prm.get("name") == "f"]
+        if not rp or not fp or fn.is_lambda:
+            continue
+        for pos, ev in fn.events():
+            if not (ev.get("k") == "call" and ev.get("opcall") == "()" and len(ev.get("args", [])) == 3):
+                continue
+            o = ev.get("obj")
+            while isinstance(o, dict) and o.get("k") in ("cast",) :
+                o = o.get("e")
+            if not (isinstance(o, dict) and o.get("k") == "var" and o.get("vid") == fp[0]["vid"]):
+                continue
+            n += 1
+            def member_of_range(x, name):
+                x = strip_casts(x)
+                if not (isinstance(x, dict) and x.get("k") == "member" and x.get("fname") == name):
+                    return False
+                b = strip_casts(x.get("base"))
+                if not (isinstance(b, dict) and b.get("k") == "var"):
+                    return False
+                if b.get("vid") == rp[0]["vid"]:
+                    return True
+                # an unmodified member of a local copy of `range` is the same value
+                from lib.rules import single_def_value
+                d = strip_casts(single_def_value(fn, b)) if b.get("vk") == "local" else None
+                while isinstance(d, dict) and d.get("k") == "construct" and d.get("args"):
+                    d = strip_casts(d["args"][0])
+                if not (isinstance(d, dict) and d.get("k") == "var" and d.get("vid") == rp[0]["vid"]):
+                    return False
+                for _, we in fn.events():
+                    if we.get("k") == "bin" and we.get("op", "").endswith("=") and we.get("op") not in ("==", "!=", "<=", ">="):
+                        l = strip_casts(we.get("l"))
+                        if isinstance(l, dict) and l.get("k") == "member" and l.get("fname") == name and isinstance(strip_casts(l.get("base")), dict) and strip_casts(l.get("base")).get("vid") == b.get("vid"):
+                            return False
+                return True
+            a, b = ev["args"][1], ev["args"][2]
+            ok = member_of_range(a, "start") and member_of_range(b, "end")
+            R.ob("C12.serial-range", fn, ev, ok, "serial fallback runs f over [range.start, range.end)" if ok else
+                 "serial fallback runs f over [%s, %s), not over the caller's whole range: the indices outside it (the granularity tail) are never visited" % (expr_str(a), expr_str(b)),
+                 sitekey="serial-call", why="every index of [start, end) is visited exactly once, whichever dispatch path is taken")
+    R.need("C12.serial-range", n, 2, "serial fallbacks in parallel_for")
